@@ -61,3 +61,18 @@ register_meta('C03', level='proof', explanation='contracts on the digit-literal 
 register_meta('C05', level='proof', explanation='contracts on table binding, key loop, compound currency arithmetic + closed exhaustive table evaluation',
               assumptions=['float arithmetic as reals', 'the closed table obligation is an exhaustive evaluation of the real package over the finite tables with the numeral 5',
                            'NumberWithUnitExtractor.extract not under contract'])
+
+register_meta('C20', level='proof', explanation='polarity tables, registration, span/selection glue and tokenizer under contract; regular-language obligations on the real patterns',
+              trusted=['relang/nfa.py: sre parse tree -> NFA with exact character-class alphabet and \\b from neighbour classes'],
+              assumptions=['regex matches are environment values (R1 geometry, at most two per pattern in the extract contract)',
+                           'grapheme.slice(s) == s and the emoji package (is_emoji) are external: grapheme is replaced by a shim on replay and in the closed end-to-end evaluation',
+                           'BOUNDED (not proved): c20.match_value.contiguous.* stand in for match_value on three source tokens',
+                           'that the tokens of a match occur contiguously among the tokens of the query (so that a listed expression scores above zero) is not under contract; it is exercised by the closed end-to-end enumeration only',
+                           'an extractor that raises leaves parse_results unbound in ChoiceModel.parse (UnboundLocalError); no str input is known to reach it'])
+
+register_meta('C04', level='other', explanation='the stack / round-number arithmetic of the real BaseNumberParser.__get_int_value proved per token layout (token words and table values symbolic); the end-to-end statement (spelling -> one entity with the value) only by a BOUNDED enumeration',
+              assumptions=['which tokens the text_number_regex yields for a spelling, and that the extractor reports the spelling as one entity, are not under contract',
+                           'layouts: groups c / cc / cH / cHc / cHcc / cHac / cHacc (c cardinal word, H hundred word, a the separator "and") and their ordinal endings; one to four round words strictly decreasing left to right with groups c or cHacc',
+                           'table facts required by the contracts (the separator word is in no table and resolves to 0; cardinal words are neither ordinal nor round words) are preconditions; they are checked against the real English configuration by the closed obligation tables/english-number-words, not for other cultures',
+                           'BOUNDED (not proved): spelling/english and spelling/chinese enumerate n < 2000 (quick) / 10000 (thorough), powers of ten, 10^k +/- 1 and seeded samples; Spanish, French, Portuguese, German, Italian, Dutch and Japanese spellings are not generated',
+                           'Decimal(tmp_val) of an integer is that integer (15-digit context: exact below 10^15)'])
